@@ -378,9 +378,13 @@ open Tcell.Props.C03 in
 equal to `buildKeys` by the exhaustive `keytable` correspondence), the parsers `collectEventsFromInput` activates for it,
 and the clipboard / SGR-mouse parser variants of the tree under test (`Gen.clipFixed`, `Gen.sgrStrict`: the translator's
 behavioural probes, the same questions engine `parsechunk` asks to choose the model variant it is compared with) -/
-def dbCfg (p : Terminfo × List Gen.KeyRow) : Cfg :=
+def dbCfgV (p : Terminfo × List Gen.KeyRow) (sgr : Bool) : Cfg :=
   { keys := toTable p.2, mouse := mouseActive p.1, clipboard := clipboardActive p.1, clipFixed := Gen.clipFixed,
-    sgrStrict := Gen.sgrStrict, dec := decUtf8, w := 80, h := 24 }
+    sgrStrict := sgr, dec := decUtf8, w := 80, h := 24 }
+
+open Tcell.Props.C03 in
+/-- … with the SGR parser variant of the tree under test -/
+def dbCfg (p : Terminfo × List Gen.KeyRow) : Cfg := dbCfgV p Gen.sgrStrict
 
 /-- the current tree has the clipboard parser of /repo 6c7d26f (cuts at the terminator it found, checks its prefix) -/
 theorem tree_clip_fixed : Gen.clipFixed = true := by decide
@@ -394,17 +398,18 @@ def focusClash (T : KeyTable) : Bool :=
 
 set_option maxRecDepth 1000000 in
 /-- the kernel evaluation of `db_guard`, in two halves of the entry list (each well under a minute) -/
-theorem db_guard_lo : (Gen.dbTables.take 25).all (fun p => keyGuard (dbCfg p)) = true := by decide +kernel
+theorem db_guard_lo : (Gen.dbTables.take 25).all (fun p => keyGuard (dbCfgV p false)) = true := by decide +kernel
 set_option maxRecDepth 1000000 in
-theorem db_guard_hi : (Gen.dbTables.drop 25).all (fun p => keyGuard (dbCfg p)) = true := by decide +kernel
+theorem db_guard_hi : (Gen.dbTables.drop 25).all (fun p => keyGuard (dbCfgV p false)) = true := by decide +kernel
 
 /-- **DB: table guard** (full strength, current tree) — for EVERY entry of the regenerated database, no exception: every key
 sequence is non-empty and 7-bit initial, and focus / X11 / SGR / clipboard parsers (those active for the entry) complete on
-no proper prefix of a key.  One linear pass per entry (`keyGuard` runs each active parser once on each key's longest proper
+no proper prefix of a key — evaluated for the pinned (lenient) SGR parser, which completes on a superset of what the strict
+one completes on, so the guard transfers to the strict variant (`keyGuard_of_pinned`).  One linear pass per entry (`keyGuard` runs each active parser once on each key's longest proper
 prefix; no pair of keys is compared).  Holds since /repo 7758baa: before it the rxvt family defined Ctrl-arrows as
 `ESC [ O a…d`, which extend the focus-out report `ESC [ O` (`rxvt_focus_clash` below), and only the statement with
 focus-clashing tables excepted held. -/
-theorem db_guard : Gen.dbTables.all (fun p => keyGuard (dbCfg p)) = true := by
+theorem db_guard : Gen.dbTables.all (fun p => keyGuard (dbCfgV p false)) = true := by
   rw [← List.take_append_drop 25 Gen.dbTables, List.all_append, db_guard_lo, db_guard_hi]; rfl
 
 /-- no table of the current database has a key extending a focus report (the former exception is empty) -/
@@ -412,11 +417,15 @@ theorem db_no_focus_clash : Gen.dbTables.all (fun p => !focusClash (dbCfg p).key
 
 /-- **DB: `Stable`** (full strength) for EVERY database entry, with the UTF-8 decoder (and, by `stable_of_dec` /
 `stable_congr`, any decoder satisfying `DecLaws`, any screen size, either X11 variant) -/
-theorem db_stable : ∀ p ∈ Gen.dbTables, Stable (dbCfg p) := fun p hp =>
-  { pf := Tcell.Props.C03.db_prefix_free p hp
-    guard := List.all_eq_true.mp db_guard p hp
-    dec := decLaws_utf8
-    clip := fun _ => tree_clip_fixed }
+theorem db_stable_sgr (sgr : Bool) : ∀ p ∈ Gen.dbTables, Stable (dbCfgV p sgr) := fun p hp =>
+  stable_sgr_variant (dbCfgV p false)
+    { pf := Tcell.Props.C03.db_prefix_free p hp
+      guard := List.all_eq_true.mp db_guard p hp
+      dec := decLaws_utf8
+      clip := fun _ => tree_clip_fixed } rfl sgr
+
+/-- **DB: `Stable`** for the parser variants of the tree under test -/
+theorem db_stable : ∀ p ∈ Gen.dbTables, Stable (dbCfg p) := fun p hp => db_stable_sgr Gen.sgrStrict p hp
 
 /-- the key `ESC [ O a` (rxvt Ctrl-Up in the pinned database) against the focus-out report `ESC [ O` -/
 def exRxvt : Cfg :=
@@ -475,13 +484,17 @@ theorem db_collect_append : ∀ p ∈ Gen.dbTables, ∀ (st : PState) (a b : Byt
     collect (dbCfg p) st (a ++ b) e = feed2 (dbCfg p) st a b e :=
   fun p hp st a b e => collect_append_stable (dbCfg p) (db_stable p hp) st a b e
 
-/-- the same for the repaired SGR parser (fixes/C02-sgr-strict.patch): `Stable` and chunk independence for every database
-entry without a focus clash -/
-theorem db_stable_strict : ∀ p ∈ Gen.dbTables, focusClash (dbCfg p).keys = false → Stable { dbCfg p with sgrStrict := true } :=
-  fun p hp hno => stable_sgr_variant (dbCfg p) (db_stable_partial p hp hno) rfl true
+/-- explicitly for the strict SGR parser (/repo 9fa9988) and for the lenient one, whatever the tree implements: `Stable` and
+chunk independence for EVERY database entry -/
+theorem db_stable_strict : ∀ p ∈ Gen.dbTables, Stable { dbCfg p with sgrStrict := true } :=
+  fun p hp => db_stable_sgr true p hp
 
-theorem db_collect_append_strict : ∀ p ∈ Gen.dbTables, focusClash (dbCfg p).keys = false → ∀ (st : PState) (a b : Bytes) (e : Bool),
+theorem db_collect_append_strict : ∀ p ∈ Gen.dbTables, ∀ (st : PState) (a b : Bytes) (e : Bool),
     collect { dbCfg p with sgrStrict := true } st (a ++ b) e = feed2 { dbCfg p with sgrStrict := true } st a b e :=
-  fun p hp hno st a b e => collect_append_stable _ (db_stable_strict p hp hno) st a b e
+  fun p hp st a b e => collect_append_stable _ (db_stable_strict p hp) st a b e
+
+theorem db_collect_append_lenient : ∀ p ∈ Gen.dbTables, ∀ (st : PState) (a b : Bytes) (e : Bool),
+    collect { dbCfg p with sgrStrict := false } st (a ++ b) e = feed2 { dbCfg p with sgrStrict := false } st a b e :=
+  fun p hp st a b e => collect_append_stable _ (db_stable_sgr false p hp) st a b e
 
 end Tcell.Props.C02
